@@ -1,3 +1,4 @@
+import warnings
 """failing-input searches on the real code for C03, C04, C05, C06 (all source classes)"""
 import numpy as np
 from scipy.spatial.transform import Rotation as R
@@ -328,6 +329,25 @@ def c04_sweep(ctx, n):
                             fails.append({"key": "observer-entries:mixed-list", "desc": f"getB(src, [array, sensor, array]) ({form} form): entry {k_} is not the field at that entry's own positions",
                                           "replay": {"class": cls, "entry": k_, "form": form, "list": ["array" if isinstance(x_, np.ndarray) else "sensor" for x_ in obs_list]}})
                             break
+        # several sensors with BIT-IDENTICAL orientations (the default, one shared tilt, one shared rotating path, the same sensor twice)
+        # and mixed handedness, a left-handed one first: each reads the field in ITS frame (x flipped for left-handed ones only)
+        if i % 3 == 2:
+            mq = rng.choice([1, 2, 3])
+            shared = rng.choice([None, R.random(rng=nps), R.random(mq, rng=nps)])
+            hands = rng.choice([["left", "right"], ["left", "left"], ["left", "right", "left"], ["right", "left", "right"]])
+            ppos = [far_points(nps, 1, lo=5, hi=8)[0] for _ in hands]
+            group = [magpy.Sensor(position=p_, orientation=shared, pixel=nps.uniform(-0.3, 0.3, (2, 3)), handedness=h_) for p_, h_ in zip(ppos, hands)]
+            if rng.random() < 0.3:
+                group.append(group[0])
+            outg = magpy.getB(src, group, squeeze=False)
+            kinds["shared-orientation-sensors"] = kinds.get("shared-orientation-sensors", 0) + 1
+            for k_, s_ in enumerate(group):
+                alone = magpy.getB(src, s_, squeeze=False)[:, :, 0]
+                mm_ = min(outg.shape[1], alone.shape[1])
+                if not _close(outg[:, :mm_, k_], alone[:, :mm_], float(np.max(np.abs(alone))) + 1e-300, 1e-9):
+                    fails.append({"key": "sensor-frame:shared-orientation", "desc": f"sensors with identical orientations and handedness {[g_.handedness for g_ in group]} in one call: sensor {k_} does not read what it reads alone",
+                                  "replay": {"class": cls, "hands": [g_.handedness for g_ in group], "sensor": k_}})
+                    break
         # pixel_agg with different pixel shapes
         if i % 3 == 0:
             s2 = magpy.Sensor(position=far_points(nps, 1, lo=5, hi=8)[0], pixel=nps.uniform(-0.3, 0.3, (3, 3)))
@@ -449,6 +469,25 @@ def c05_sweep(ctx, n):
             if not okr:
                 fails.append({"key": "superposition:ragged-polylines:strong-weak", "desc": "two Polylines with different vertex counts and currents 10 orders of magnitude apart in one call: "
                               "a row is not that source's own field (relative to its own size) or not linear in its own current", "replay": {"field": field, "strong_current": float(strong.current), "weak_current": float(weak.current), "order": [len(o_.vertices) for o_ in order]}})
+        # excitations of any size are excitations: a source scaled down by 1e-9 ... 1e-15 gives the field scaled by that factor
+        # (nanoampere currents, picotesla polarizations), alone, next to a strong source, and several weak ones sum up
+        if i % 4 == 3:
+            from oracles.sources import make as _mk
+            s_w = _mk(rng.choice(CLASSES), nps)
+            fac = 10.0 ** -rng.choice([9, 11, 13, 15])
+            attr_ = "polarization" if getattr(s_w, "polarization", None) is not None else ("current" if getattr(s_w, "current", None) is not None else "moment")
+            full = get(s_w, obs, squeeze=False)
+            weak_ = s_w.copy(**{attr_: np.asarray(getattr(s_w, attr_), dtype=float) * fac if attr_ != "current" else float(s_w.current) * fac})
+            with warnings.catch_warnings():
+                warnings.simplefilter("ignore")
+                wf = get(weak_, obs, squeeze=False)
+                both_ = get([weak_, weak_.copy(), s_w], obs, squeeze=False)
+                tot_ = get([weak_, weak_.copy()], obs, sumup=True, squeeze=False)
+            sc_ = float(np.max(np.abs(full))) * fac + 1e-300
+            okw = _close(wf, full * fac, sc_, 1e-9) and _close(both_[0], full[0] * fac, sc_, 1e-9) and _close(both_[1], full[0] * fac, sc_, 1e-9) and _close(tot_[0], 2 * full[0] * fac, sc_, 1e-9)
+            if not okw:
+                fails.append({"key": f"linearity:tiny-excitation:{type(s_w).__name__}", "desc": f"a {type(s_w).__name__} with its {attr_} scaled by {fac:g} does not give the field scaled by that factor (alone / next to others / summed)",
+                              "replay": {"class": type(s_w).__name__, "attribute": attr_, "factor": fac, "field": field}})
         # several bodies of the SAME geometry (copies placed elsewhere) with different polarization, next to each other in one call
         # (list, Collection, sumup), observers inside each of them: superposition and linearity in each body's own polarization
         if i % 4 == 1:
